@@ -108,25 +108,29 @@ Proof.
 Qed.
 
 Lemma apply_effect_calls : forall i e s, calls (apply_effect i e s) = calls s.
-Proof. intros i [] s; cbn; try reflexivity. destruct (rd s); reflexivity. Qed.
+Proof. intros i [] s; cbn; try reflexivity; [destruct (rd s)|destruct (eof s)]; reflexivity. Qed.
 
 Lemma apply_effect_cclosed : forall i e s, cclosed (apply_effect i e s) = cclosed s.
-Proof. intros i [] s; cbn; try reflexivity. destruct (rd s); reflexivity. Qed.
+Proof. intros i [] s; cbn; try reflexivity; [destruct (rd s)|destruct (eof s)]; reflexivity. Qed.
 
 Lemma apply_effect_eof : forall i e s, eof (apply_effect i e s) = eof s.
-Proof. intros i [] s; cbn; try reflexivity. destruct (rd s); reflexivity. Qed.
+Proof. intros i [] s; cbn; try reflexivity; [destruct (rd s)|destruct (eof s) eqn:E]; cbn; congruence. Qed.
 
 Lemma apply_effect_tclosed : forall i e s, tclosed s = true -> tclosed (apply_effect i e s) = true.
-Proof. intros i [] s H; cbn; try assumption; try reflexivity. destruct (rd s); assumption. Qed.
+Proof. intros i [] s H; cbn; try assumption; try reflexivity; [destruct (rd s)|destruct (eof s)]; assumption. Qed.
 
 Lemma apply_effect_rd : forall i e s, rd s <> RNotStarted -> rd (apply_effect i e s) = rd s.
-Proof. intros i [] s H; cbn; try reflexivity. destruct (rd s) eqn:E; cbn; congruence. Qed.
+Proof. intros i [] s H; cbn; try reflexivity; [destruct (rd s) eqn:E|destruct (eof s)]; cbn; congruence. Qed.
 
-Lemma apply_effect_inbox : forall i e s, exists tl, inbox (apply_effect i e s) = inbox s ++ tl /\ (tl = [] \/ tl = [PAck i]).
+(* the inbox only grows, by an answer of the peer, and only while the peer has not closed *)
+Lemma apply_effect_inbox : forall i e s, exists tl, inbox (apply_effect i e s) = inbox s ++ tl /\
+  (tl = [] \/ (tl = [PAck i] /\ e = ESendAck /\ eof s = false)).
 Proof.
   intros i [] s; cbn; try (exists []; rewrite app_nil_r; split; [reflexivity | left; reflexivity]).
   - destruct (rd s); exists []; rewrite app_nil_r; (split; [reflexivity | left; reflexivity]).
-  - exists [PAck i]. split; [reflexivity | right; reflexivity].
+  - destruct (eof s) eqn:E.
+    + exists []. rewrite app_nil_r. split; [reflexivity | left; reflexivity].
+    + exists [PAck i]. split; [reflexivity | right; auto].
 Qed.
 
 Definition is_lock (i : instr) : bool := match i with IRLock | IWLock => true | _ => false end.
@@ -181,7 +185,7 @@ Lemma apply_effect_msr_parts : forall i e s,
 Proof.
   intros i [] s; cbn; try (split; lia).
   - destruct (rd s) eqn:E; cbn; rewrite ?E; cbn; split; lia.
-  - rewrite app_length. cbn. split; lia.
+  - destruct (eof s); cbn; [split; lia|]. rewrite app_length. cbn. split; lia.
 Qed.
 
 Lemma step_msr : forall l s s', step l s = Some s' -> msr s' < msr s.
@@ -491,7 +495,9 @@ Definition closed_err (c : cst) : errv :=
 
 Definition woken (c0 c : cst) : Prop := c = c0 \/ c = finish c0 (closed_err c0).
 
-Definition no_acks (l : list inpkt) : Prop := forall i, ~ In (PAck i) l.
+(* the only acknowledgements on their way are stray ones: for identifiers none of the parked calls waits for
+   (late, duplicated or unsolicited packets) — any number of them *)
+Definition stray_only (cs : list cst) (l : list inpkt) : Prop := forall i, In (PAck i) l -> length cs <= i.
 
 Lemma parked_wf : forall c, parked c -> wf_call c.
 Proof.
@@ -502,16 +508,23 @@ Qed.
 Lemma parked_active : forall c, parked c -> active c = true.
 Proof. intros c (Hr & _ & _ & kc & kx & tl & Er & _). unfold active. rewrite Hr, Er. reflexivity. Qed.
 
+Lemma Forall2_length' {A B} (P : A -> B -> Prop) : forall l1 l2, Forall2 P l1 l2 -> length l1 = length l2.
+Proof. intros l1 l2 H; induction H; cbn; congruence. Qed.
+
 Lemma step_woken : forall cs l s s', Forall parked cs ->
-  Forall2 woken cs (calls s) -> no_acks (inbox s) -> step l s = Some s' ->
-  Forall2 woken cs (calls s') /\ no_acks (inbox s').
+  Forall2 woken cs (calls s) -> stray_only cs (inbox s) -> step l s = Some s' ->
+  Forall2 woken cs (calls s') /\ stray_only cs (inbox s').
 Proof.
   intros cs [|i a] s s' Hp Hw Hn H.
   - cbn [step] in H. unfold rstep in H.
     destruct (rd s) eqn:Erd; try discriminate.
     + destruct (inbox s) as [|[j| |] q] eqn:Ein.
       * destruct (tclosed s || eof s); [|discriminate]. injection H as <-. cbn. rewrite Ein. split; [exact Hw|exact Hn].
-      * exfalso. apply (Hn j). left. reflexivity.
+      * (* a stray acknowledgement: nobody waits for it, the reader drops it and goes on *)
+        injection H as <-. unfold deliver. cbn [calls set_inbox].
+        assert (En : nth_error (calls s) j = None).
+        { apply nth_error_None. rewrite <- (Forall2_length' _ _ _ Hw). apply Hn. left. reflexivity. }
+        rewrite En. cbn. split; [exact Hw|]. intros k Hk. apply Hn. right. exact Hk.
       * injection H as <-. cbn. split; [exact Hw|]. intros k Hk. apply (Hn k). right. exact Hk.
       * injection H as <-. cbn. split; [exact Hw|]. intros k Hk. apply (Hn k). right. exact Hk.
     + injection H as <-. cbn. split; assumption.
@@ -537,8 +550,8 @@ Proof.
 Qed.
 
 Lemma run_woken : forall cs sched s, Forall parked cs ->
-  Forall2 woken cs (calls s) -> no_acks (inbox s) ->
-  Forall2 woken cs (calls (run sched s)) /\ no_acks (inbox (run sched s)).
+  Forall2 woken cs (calls s) -> stray_only cs (inbox s) ->
+  Forall2 woken cs (calls (run sched s)) /\ stray_only cs (inbox (run sched s)).
 Proof.
   intros cs sched. induction sched as [|l r IH]; intros s Hp Hw Hn; [split; assumption|].
   rewrite run_cons. unfold exec. destruct (step l s) as [s'|] eqn:E.
@@ -550,10 +563,11 @@ Lemma Forall2_refl_woken : forall cs, Forall2 woken cs cs.
 Proof. induction cs; constructor; [left; reflexivity|assumption]. Qed.
 
 (* C11, several calls blocked at once: for ANY list of calls parked in a select of ANY program (no bound on
-   their number), one connection end and any schedule that runs until nothing moves: every one of them has
-   returned the error of its connClosed arm, Done() is closed, the reader goroutine is gone *)
+   their number), ANY number of stray acknowledgements still queued, one connection end and any schedule that
+   runs until nothing moves: every one of them has returned the error of its connClosed arm, Done() is closed,
+   the reader goroutine is gone *)
 Theorem all_wake : forall (cs : list cst) (s : sys) (sched : list label),
-  Forall parked cs -> calls s = cs -> no_acks (inbox s) ->
+  Forall parked cs -> calls s = cs -> stray_only cs (inbox s) ->
   rd s <> RNotStarted -> (rd s = RFinished -> cclosed s = true) -> ended s ->
   Quiescent (run sched s) ->
   Forall2 (fun c0 c => c = finish c0 (closed_err c0)) cs (calls (run sched s)) /\
@@ -580,6 +594,158 @@ Proof.
   rewrite chain_through_wrappers. unfold closed_err.
   destruct (rest c0) as [|[| | | |kc kx| |] t]; try reflexivity.
   destruct (wrap_as_fold kc (Leaf SClosedTransport)) as [ws' ->]. rewrite chain_through_wrappers. reflexivity.
+Qed.
+
+
+(* ===================================================================================== *)
+(** * E2. The reader is never held up by anybody: stray acknowledgements included *)
+
+(* packets the reader has to consume before it meets a malformed one *)
+Fixpoint prefix_len (l : list inpkt) : nat :=
+  match l with
+  | [] => 0
+  | PBad :: _ => 0
+  | _ :: q => S (prefix_len q)
+  end.
+
+(* own steps the reader goroutine still needs: what is queued, the failing read, the four exit steps *)
+Definition rleft (s : sys) : nat :=
+  match rd s with
+  | RServing => S (prefix_len (inbox s)) + 4
+  | r => exit_left r
+  end.
+
+(* serve.go: whatever the next packet is — an acknowledgement somebody waits for, one whose waiter's buffer is
+   already full, one for a call that has returned, one for an identifier nobody knows, any number of them in a
+   row — the reader consumes it; a hand-off never blocks *)
+Lemma reader_never_blocks_on_handoff : forall s p q, rd s = RServing -> inbox s = p :: q -> rstep s <> None.
+Proof. intros s p q Hr Hi. unfold rstep. rewrite Hr, Hi. destruct p; discriminate. Qed.
+
+Lemma reader_enabled_when_ended : forall s, ended s -> rd s = RServing -> rstep s <> None.
+Proof.
+  intros s He Hr. destruct (inbox s) as [|p q] eqn:Ei; [|eapply reader_never_blocks_on_handoff; eassumption].
+  unfold rstep. rewrite Hr, Ei. destruct He as [Ht|[Ho|[Hb|Hp]]].
+  - rewrite Ht. discriminate.
+  - rewrite Ho, orb_true_r. discriminate.
+  - rewrite Ei in Hb. contradiction.
+  - rewrite Hr in Hp. discriminate.
+Qed.
+
+Lemma prefix_len_app_bad : forall l t, In PBad l -> prefix_len (l ++ t) = prefix_len l.
+Proof.
+  induction l as [|p q IH]; intros t H; [contradiction|]. destruct p; cbn; try reflexivity;
+    (f_equal; apply IH; destruct H as [H|H]; [discriminate|exact H]).
+Qed.
+
+Lemma cstep_sendack_open : forall tcl ccl wl rl a c c', cstep tcl ccl wl rl a c = Some (c', ESendAck) -> tcl = false.
+Proof.
+  intros tcl ccl wl rl a c c' H. unfold cstep in H.
+  destruct (negb (active c)); [discriminate|]. destruct (rest c) as [|ins rs]; [discriminate|].
+  destruct ins, a; try discriminate;
+    repeat match type of H with
+           | context [if ?b then _ else _] => destruct b eqn:?
+           | context [match answers ?c with _ => _ end] => destruct (answers c)
+           | context [match cx ?c with _ => _ end] => destruct (cx c)
+           end; try discriminate; reflexivity.
+Qed.
+
+Lemma deliver_fields : forall j s, rd (deliver j s) = rd s /\ inbox (deliver j s) = inbox s /\
+  tclosed (deliver j s) = tclosed s /\ eof (deliver j s) = eof s /\ cclosed (deliver j s) = cclosed s.
+Proof. intros j s. unfold deliver. destruct (nth_error (calls s) j); cbn; auto. Qed.
+
+Definition rinv (s : sys) : Prop := ended s /\ rd s <> RNotStarted /\ (rd s <> RServing -> exit_inv s).
+
+Lemma exiting_rleft : forall s, exiting (rd s) = true -> rleft s = exit_left (rd s).
+Proof. intros s H. unfold rleft. destruct (rd s); try reflexivity. discriminate. Qed.
+
+Lemma exit_inv_rinv : forall s, exit_inv s -> rinv s.
+Proof.
+  intros s Hi. pose proof Hi as (He & _). split; [|split].
+  - right; right; right. destruct (rd s); try discriminate; reflexivity.
+  - intros E. rewrite E in He. discriminate.
+  - intros _. exact Hi.
+Qed.
+
+Lemma exec_rinv : forall s l, rinv s ->
+  rinv (exec s l) /\
+  rleft (exec s l) + (match l with LReader => (if Nat.eqb (rleft s) 0 then 0 else 1) | _ => 0 end) <= rleft s.
+Proof.
+  intros s l (Hen & Hst & Hex).
+  destruct (exiting (rd s)) eqn:Eex.
+  - (* in the exit sequence *)
+    assert (Hi : exit_inv s) by (apply Hex; intros E; rewrite E in Eex; discriminate).
+    destruct (exec_exit_inv s l Hi) as [Hi' Hl]. split; [apply exit_inv_rinv; exact Hi'|].
+    rewrite (exiting_rleft s Eex), (exiting_rleft (exec s l) (proj1 Hi')), Hl.
+    destruct l; [|lia]. destruct (exit_left (rd s)); cbn; lia.
+  - (* in serve *)
+    assert (Hr : rd s = RServing) by (destruct (rd s); try discriminate; [contradiction|reflexivity]).
+    unfold exec. destruct l as [|i a].
+    + cbn [step]. pose proof (reader_enabled_when_ended s Hen Hr) as Hne.
+      unfold rstep in *. rewrite Hr in *.
+      assert (Hrl : rleft s = S (prefix_len (inbox s)) + 4) by (unfold rleft; rewrite Hr; reflexivity).
+      destruct (inbox s) as [|[j| |] q] eqn:Ei.
+      * destruct (tclosed s || eof s); [|contradiction]. split.
+        -- apply exit_inv_rinv. unfold exit_inv. cbn. repeat split; try discriminate. intros E; contradiction E; reflexivity.
+        -- rewrite Hrl. cbn. lia.
+      * destruct (deliver_fields j (set_inbox s q)) as (Hd1 & Hd2 & Hd3 & Hd4 & _). split.
+        -- split; [|split].
+           ++ unfold ended. rewrite Hd1, Hd2, Hd3, Hd4. cbn.
+              destruct Hen as [Ht|[Ho|[Hb|Hp]]]; [left; exact Ht|right; left; exact Ho| |rewrite Hr in Hp; discriminate].
+              rewrite Ei in Hb. destruct Hb as [Hb|Hb]; [discriminate|]. right; right; left. exact Hb.
+           ++ rewrite Hd1. cbn. rewrite Hr. discriminate.
+           ++ intros Hn. exfalso. apply Hn. rewrite Hd1. cbn. exact Hr.
+        -- rewrite Hrl. unfold rleft. rewrite Hd1, Hd2. cbn. rewrite Hr. cbn. lia.
+      * split.
+        -- split; [|split].
+           ++ unfold ended. cbn.
+              destruct Hen as [Ht|[Ho|[Hb|Hp]]]; [left; exact Ht|right; left; exact Ho| |rewrite Hr in Hp; discriminate].
+              rewrite Ei in Hb. destruct Hb as [Hb|Hb]; [discriminate|]. right; right; left. exact Hb.
+           ++ cbn. rewrite Hr. discriminate.
+           ++ intros Hn. exfalso. apply Hn. cbn. exact Hr.
+        -- rewrite Hrl. unfold rleft. cbn. rewrite Hr. cbn. lia.
+      * split.
+        -- apply exit_inv_rinv. unfold exit_inv. cbn. repeat split; try discriminate. intros E; contradiction E; reflexivity.
+        -- rewrite Hrl. cbn. lia.
+    + destruct (step (LCall i a) s) as [s'|] eqn:Es; [|split; [exact (conj Hen (conj Hst Hex))|lia]].
+      apply step_call_inv in Es as (c & c' & e & En & Ec & ->).
+      set (s1 := set_calls s (upd i c' (calls s))).
+      assert (Hns : rd s1 <> RNotStarted) by exact Hst.
+      destruct (apply_effect_inbox i e s1) as (t & Hin & Ht).
+      assert (Hrd : rd (apply_effect i e s1) = RServing) by (rewrite apply_effect_rd by exact Hns; exact Hr).
+      split.
+      * split; [|split].
+        -- destruct Hen as [Hc|[Ho|[Hb|Hp]]].
+           ++ left. apply apply_effect_tclosed. exact Hc.
+           ++ right; left. rewrite apply_effect_eof. exact Ho.
+           ++ right; right; left. rewrite Hin. apply in_or_app. left. exact Hb.
+           ++ rewrite Hr in Hp. discriminate.
+        -- rewrite Hrd. discriminate.
+        -- intros Hn. exfalso. apply Hn. exact Hrd.
+      * unfold rleft. rewrite Hrd, Hr, Hin. cbn [inbox s1 set_calls].
+        destruct Ht as [-> | (-> & -> & Heo)]; [rewrite app_nil_r; lia|].
+        (* the peer answered: so it had not closed and the transport was open — then the connection was
+           ended by a malformed packet already queued, and the answer lands behind it *)
+        pose proof (cstep_sendack_open _ _ _ _ _ _ _ Ec) as Htc.
+        destruct Hen as [Hc|[Ho|[Hb|Hp]]]; [congruence|cbn in Heo; congruence| |rewrite Hr in Hp; discriminate].
+        rewrite (prefix_len_app_bad _ _ Hb). lia.
+Qed.
+
+(* C11: once the connection has ended — whatever is still queued for the reader, stray acknowledgements in any
+   number included, and whatever the other goroutines do in between — [rleft s] own steps of the reader
+   goroutine are enough: serve returns, the transport is closed, Done() is closed, the goroutine is gone *)
+Theorem reader_wait_free : forall sched s, ended s -> rd s <> RNotStarted -> (rd s <> RServing -> exit_inv s) ->
+  rleft s <= count_reader sched ->
+  rd (run sched s) = RFinished /\ cclosed (run sched s) = true /\ tclosed (run sched s) = true.
+Proof.
+  intros sched s H1 H2 H3. assert (Hi : rinv s) by exact (conj H1 (conj H2 H3)). clear H1 H2 H3.
+  revert s Hi. induction sched as [|l r IH]; intros s Hi Hc.
+  - cbn in *. destruct Hi as (_ & Hst & Hex). unfold rleft in Hc.
+    destruct (rd s) eqn:E; cbn in Hc; try lia; [contradiction|].
+    destruct Hex as (_ & Ht & Hcc); [discriminate|].
+    split; [reflexivity|]. split; [apply Hcc; exact E|apply Ht; rewrite E; discriminate].
+  - rewrite run_cons. destruct (exec_rinv s l Hi) as [Hi' Hl]. apply IH; [exact Hi'|].
+    destruct l; cbn [count_reader] in Hc; [|lia].
+    destruct (Nat.eqb (rleft s) 0) eqn:E0; [apply Nat.eqb_eq in E0|]; lia.
 Qed.
 
 (* ===================================================================================== *)
@@ -624,6 +790,20 @@ Proof.
   apply H. unfold raw_outcomes.
   change (Some (observe z (run sched (cell_start (c, p, z))))) with (option_map (observe z) (Some (run sched (cell_start (c, p, z))))).
   apply in_map. exact He.
+Qed.
+
+(* ---------- the matrix again, with stray acknowledgements consumed (or still queued) before the cause ---------- *)
+
+Lemma stray_matrix_ok_b : forallb (fun k => forallb (stray_cell_ok k) matrix) [1; 2; 3; 4] = true.
+Proof. vm_compute. reflexivity. Qed.
+
+(* every cell of the matrix, and the same causes with no call blocked at all, after 2k stray
+   acknowledgements (k duplicates of an answered request, k for unknown identifiers), k <= 4, all schedules *)
+Theorem matrix_returns_after_stray_acks : forall k c p z, In k [1; 2; 3; 4] -> In (c, p, z) matrix ->
+  stray_cell_ok k (c, p, z) = true.
+Proof.
+  intros k c p z Hk Hin.
+  exact (proj1 (forallb_forall _ _) (proj1 (forallb_forall _ _) stray_matrix_ok_b k Hk) _ Hin).
 Qed.
 
 (* ---------- finding F14 ---------- *)
@@ -758,7 +938,9 @@ Qed.
 
 (* three calls parked on one connection (QoS1 waiting PUBACK, QoS2 waiting PUBCOMP, Ping), peer closes *)
 Definition ex_cps := [(CPub1, PWait1); (CPub2, PWait2); (CPing, PWait1)].
-Definition ex_sys : sys := apply_cause PWait1 PeerClose (multi_start ex_cps).
+Definition ex_sys : sys :=
+  let s := apply_cause PWait1 PeerClose (multi_start ex_cps) in
+  set_inbox s [PAck 7; PAck 7; PData; PAck 9].   (* stray acknowledgements still queued when the peer closes *)
 Definition ex_sched : list label := concat (repeat (all_labels 3) 12).
 
 Definition parkedb (c : cst) : bool :=
@@ -777,14 +959,15 @@ Proof.
 Qed.
 
 Example all_wake_hypotheses :
-  Forall parked (calls ex_sys) /\ no_acks (inbox ex_sys) /\ rd ex_sys <> RNotStarted /\
+  Forall parked (calls ex_sys) /\ stray_only (calls ex_sys) (inbox ex_sys) /\ rd ex_sys <> RNotStarted /\
   (rd ex_sys = RFinished -> cclosed ex_sys = true) /\ ended ex_sys /\ Quiescent (run ex_sched ex_sys).
 Proof.
   split; [|split; [|split; [|split; [|split]]]].
   - apply Forall_forall. intros c Hc. apply parkedb_parked.
     assert (Hb : forallb parkedb (calls ex_sys) = true) by (vm_compute; reflexivity).
     exact (proj1 (forallb_forall _ _) Hb c Hc).
-  - intros i Hi. vm_compute in Hi. exact Hi.
+  - intros i Hi. vm_compute in Hi. vm_compute.
+    destruct Hi as [E|[E|[E|[E|[]]]]]; try discriminate; injection E as <-; lia.
   - vm_compute. discriminate.
   - vm_compute. discriminate.
   - right; left. vm_compute. reflexivity.
@@ -792,8 +975,9 @@ Proof.
 Qed.
 
 Example all_wake_instance :
-  map (fun c => classify unwraps_fixed None c) (calls (run ex_sched ex_sys)) = [KClosed; KClosed; KClosed].
-Proof. vm_compute. reflexivity. Qed.
+  map (fun c => classify unwraps_fixed None c) (calls (run ex_sched ex_sys)) = [KClosed; KClosed; KClosed] /\
+  inbox (run ex_sched ex_sys) = [].
+Proof. vm_compute. split; reflexivity. Qed.
 
 (* a call waiting for the lock, one about to write, one parked, a cancelled one: the general theorem applies *)
 Definition ex_mixed : sys :=
